@@ -90,11 +90,19 @@ pub fn record(ctx: &mut Context, sys: &TransitionSystem, entry: u64, depth: u64)
 }
 
 fn check_one(rep: &mut Report, spec: &SysSpec, index: u64, entry: u64, depth: u64, z3: &mut Proc, cvc5: &mut Proc, z3old: &mut Option<Proc>) {
-    rep.count("programs", 1);
     let mut ctx = Context::default();
     let sys = spec.build(&mut ctx);
     let replay = json!({"index": index, "entry": entry, "depth": depth, "text": spec.show()});
     let label = format!("system #{index} ({}) entry step {entry} depth {depth}", spec.pattern);
+    let sample = if index % 173 == 0 && entry == 0 { Some(spec.show()) } else { None };
+    check_system(rep, ctx, &sys, &label, replay, entry, depth, z3, cvc5, z3old, false, sample);
+}
+
+/// `soft`: undecided faithfulness queries are listed, not counted (shipped designs)
+#[allow(clippy::too_many_arguments)]
+fn check_system(rep: &mut Report, mut ctx: Context, sys: &TransitionSystem, label: &str, replay: serde_json::Value, entry: u64, depth: u64, z3: &mut Proc, cvc5: &mut Proc, z3old: &mut Option<Proc>, soft: bool, sample: Option<String>) {
+    rep.count("programs", 1);
+    let sys = sys.clone();
     let share = sharing_class(&ctx, &sys).join(" + ");
     let r = match record(&mut ctx, &sys, entry, depth) {
         Ok(r) => r,
@@ -249,8 +257,8 @@ fn check_one(rep: &mut Report, spec: &SysSpec, index: u64, entry: u64, depth: u6
     match a {
         Answer::Unsat => {
             rep.count("discharged", 1);
-            if index % 173 == 0 && entry == 0 {
-                rep.sample(json!({"system": spec.show(), "entry": entry, "depth": depth, "script": r.script, "answer": "unsat"}), 6);
+            if let Some(sm) = sample.as_ref() {
+                rep.sample(json!({"system": sm, "entry": entry, "depth": depth, "script": r.script, "answer": "unsat"}), 6);
             }
         }
         Answer::Sat => {
@@ -270,7 +278,17 @@ fn check_one(rep: &mut Report, spec: &SysSpec, index: u64, entry: u64, depth: u6
             );
         }
         Answer::Error(m) => rep.undecided.push(format!("ENCODING-ERROR: faithfulness query rejected ({m}) for {label}")),
-        other => rep.inconc(json!({"system": label, "why": other.short()})),
+        other => {
+            if soft {
+                rep.count("undecided_faithfulness_queries_listed_not_counted", 1);
+                rep.uncount("obligations", 1);
+                if rep.inconclusive.len() < 30 {
+                    rep.inconclusive.push(json!({"system": label, "why": other.short()}));
+                }
+            } else {
+                rep.inconc(json!({"system": label, "why": other.short()}))
+            }
+        }
     }
 }
 
@@ -345,6 +363,35 @@ pub fn run(tier: Tier, seed: u64, replay: Option<serde_json::Value>) -> i32 {
         .collect();
     for p in parts {
         rep.merge(p);
+    }
+    // shipped designs: the real encoder on real designs (well-formedness on both front ends, faithfulness
+    // where the solver decides it within the cap)
+    if replay.is_none() {
+        let files = crate::syscmp::shipped_files(tier == Tier::Thorough);
+        let fparts: Vec<Report> = files
+            .par_iter()
+            .map(|f| {
+                let mut r = Report::new("C04", tier, seed, "translation_validation");
+                let mut z3 = Proc::new(Which::Z3New, 20_000);
+                let mut cvc5 = Proc::new(Which::Cvc5, 20_000);
+                let mut z3old = None;
+                for (entry, depth) in [(0u64, 2u64), (1, 1)] {
+                    let mut ctx = Context::default();
+                    if let Ok(Some(sys)) = crate::panics::guarded(|| patronus::btor2::parse_file_with_ctx(f, &mut ctx)) {
+                        if sys.bad_states.is_empty() && sys.constraints.is_empty() && sys.states.is_empty() {
+                            continue;
+                        }
+                        let label = format!("{} entry step {entry} depth {depth}", f.strip_prefix(crate::report::repo_root()).unwrap_or(f).display());
+                        r.count("shipped_design_runs", 1);
+                        check_system(&mut r, ctx, &sys, &label, json!({"file": f.display().to_string(), "entry": entry, "depth": depth}), entry, depth, &mut z3, &mut cvc5, &mut z3old, true, None);
+                    }
+                }
+                r
+            })
+            .collect();
+        for p in fparts {
+            rep.merge(p);
+        }
     }
     rep.extra.insert("bounds".into(), json!({"generated_systems": n, "patterns": sysgen::PATTERNS, "depths_entry0": depths, "entry1": "init_at(1) + 1 or 2 unrolls (as pdr)",
         "states": "1..3 bit-vector states of 1..4 bits (+1 array bv2->bv3)", "inputs": "0..2"}));
